@@ -93,6 +93,34 @@ spec fn view(s: RunState) -> MState {
     MState { reg: s.reg@, mem: s.mem@, pc: s.pc, cc: flag_cc(s.flag), orig: s.orig, psr: s._psr }
 }
 
+/// C03: `b` is what the reference machine makes of `a` in ONE instruction execution: fetch the word under the PC, increment the
+/// PC, execute that word (step_spec is given the state with the PC already incremented, Appendix A)
+spec fn is_ref_step(a: MState, b: MState, stack: bool) -> bool {
+    a.pc < 0xFFFF && a.mem.len() == 65536
+    && match step_spec(MState { pc: (a.pc + 1) as u16, ..a }, a.mem[a.pc as int], stack) {
+        Step::Next(s) => mstate_eq(b, s),
+        Step::Exit(c) => false,
+        Step::Unspecified => only_r0_changed(MState { pc: (a.pc + 1) as u16, ..a }, b),
+    }
+}
+
+// props: C03
+/// the run loop's `self.state.execute(instr)`, with the obligation that THIS call completes one reference step begun at `before`
+/// (the state when the instruction was fetched): the PC has been incremented by one, nothing else has changed, and the word
+/// executed is the word that was under the PC. Anchored on call prefixes only, so that a change to the fetch / increment /
+/// execute statements fails here instead of losing the anchor.
+fn verif_ref_execute(Ghost(before): Ghost<RunState>, st: &mut RunState, instr: u16)
+    requires
+        before.pc < 0xFFFF, before.mem@.len() == 65536,
+        view(*old(st)) == (MState { pc: (before.pc + 1) as u16, ..view(before) }),
+        instr == before.mem@[before.pc as int],
+    ensures
+        is_ref_step(view(before), view(*final(st)), features::stack_spec()),
+        final(st).orig == old(st).orig,
+{
+    st.execute(instr);
+}
+
 impl SignificantInstr {
 //@fn src/debugger/mod.rs "impl TryFrom<u16> for SignificantInstr" try_from ret=r props=C10,C16,C09 assumed
 //@sigsub <<<Result<Self, Self::Error>>>> ==> <<<core::result::Result<Self, ()>>>>
@@ -144,11 +172,11 @@ impl RunEnvironment {
                     // C16: an iteration that executes nothing must have consumed a command
                     proof { assert(remaining(debugger.command_reader) < remaining(dbg0->Some_0.command_reader)); }
                     continue;>>>
-//@sub <<<let instr = self.state.mem[self.state.pc as usize];
-            // PC>>> ==> <<<// C03: no instruction is ever fetched from outside [orig, 0xFE00)
+//@sub <<<let instr = >>> ==> <<<// C03: no instruction is ever fetched from outside [orig, 0xFE00)
             proof { assert(in_user(self.state.orig, self.state.pc as int)); }
-            let instr = self.state.mem[self.state.pc as usize];
-            // PC>>>
+            let ghost before = self.state;
+            let instr = >>>
+//@sub <<<self.state.execute(>>> ==> <<<verif_ref_execute(Ghost(before), &mut self.state, >>>
 //@exit 0xEE self.state.pc != 0xFFFF && !in_user(self.state.orig, self.state.pc as int)
         requires
             old(self).debugger matches Some(d) ==> dbg_wf(d) && old(self).state.orig == d.asm_source.orig && d.current_breakpoint is None,
